@@ -358,3 +358,56 @@ theorem sendsChunked_of_parseTE {t w : Bytes} (h : parseTE t = some (.chunkedFin
   exact (stripBy_infix isOws p).trans (splitOn_piece_infix 44 _ p hp)
 
 end MitmVerif.C01
+
+namespace MitmVerif.C01
+open MitmVerif
+
+/-! ### response side -/
+
+/-- a value `parse_transfer_encoding` classifies as "other" (gzip, deflate, compress, identity) is, lower-cased, exactly that
+    whitelist entry: the send side's `"chunked" in value.lower()` is false for it -/
+theorem not_sendsChunked_of_parseTE_other {t w : Bytes} (h : parseTE t = some (.other, w)) :
+    containsSub sChunked (asciiLower t) = false := by
+  obtain ⟨_, hmem⟩ := parseTE_codings h
+  have hw : w ∈ Gen.C01.teOther := by
+    rcases hmem with ⟨hc, _⟩ | ⟨_, hm⟩
+    · cases hc
+    · exact hm
+  -- teNormalize (lower t) = w
+  have hn : teNormalize (asciiLower t) = w := by
+    unfold parseTE at h
+    split at h
+    · simp at h
+    · dsimp only at h
+      split at h
+      · simp at h
+      · split at h
+        · simp at h; exact h
+        · simp at h
+  rw [teNormalize_eq] at hn
+  have hno := trimmedPieces_no_sep (splitOn_pieces_no_sep 44 (asciiLower t))
+  have hne := trimmedPieces_ne_nil (splitOn_ne_nil 44 (asciiLower t))
+  have hsp := splitOn_joinWith _ hne hno
+  rw [hn] at hsp
+  have key : splitOn 44 w = [w] ∧ containsSub sChunked w = false := by
+    simp [Gen.C01.teOther] at hw
+    rcases hw with rfl | rfl | rfl | rfl <;> decide
+  rw [key.1] at hsp
+  have hps := trimmed_single hsp.symm
+  have : asciiLower t = w := by
+    have := joinWith_splitOn 44 (asciiLower t)
+    rw [hps] at this
+    simpa [joinWith] using this.symm
+  rw [this]; exact key.2
+
+theorem decDigits_spec (n : Nat) (h : 100 ≤ n ∧ n ≤ 999) :
+    ∃ a b c, decDigits n = [a, b, c] ∧ isDigit a = true ∧ isDigit b = true ∧ isDigit c = true ∧ natOfDigits [a, b, c] = n := by
+  have key : ∀ k : Fin 1000, 100 ≤ k.val →
+      isDigit (UInt8.ofNat (48 + k.val / 100 % 10)) = true ∧ isDigit (UInt8.ofNat (48 + k.val / 10 % 10)) = true ∧
+      isDigit (UInt8.ofNat (48 + k.val % 10)) = true ∧
+      natOfDigits [UInt8.ofNat (48 + k.val / 100 % 10), UInt8.ofNat (48 + k.val / 10 % 10), UInt8.ofNat (48 + k.val % 10)] = k.val := by
+    decide +kernel
+  obtain ⟨h1, h2, h3, h4⟩ := key ⟨n, by omega⟩ h.1
+  exact ⟨_, _, _, rfl, h1, h2, h3, h4⟩
+
+end MitmVerif.C01
